@@ -1,4 +1,105 @@
 import IwModel.Model.Locks
-/-! # C07 — concurrent API calls are atomic, race-free and cannot deadlock (theorems follow) -/
+import IwModel.Model.LockSys
+import IwModel.Lemmas.LockSys
+import IwModel.Lemmas.Locks
+/-! # C07 — concurrent API calls are atomic, race-free and cannot deadlock
+
+What is proved here is the *protocol*: the transition system of `Model/LockSys.lean` (threads, read/write
+locks with writer preference, the worker count with its condition wait) and the call automata of
+`Model/Locks.lean` that the recordings of the real code are checked against.  Real scheduling and data
+races on store memory are explored by the check (TSan, watchdog, linearizability search), not proved. -/
 namespace IwModel.C07
+open IwModel.LockSys IwModel.Locks
+
+/-- **No deadlock under a lock order.**  Threads whose programs acquire locks along a strict order `rank`
+    (bounded by `B`), wait for the worker count only while holding the worker mutex alone and never while
+    holding a unit of the count themselves (no exclusive call with an own cursor open — the documented
+    self-deadlock), and end holding nothing: every state reachable from the start in which some thread is
+    not finished has an enabled step.  Holds for reader- and writer-preferring read/write locks (`pref`). -/
+theorem order_no_deadlock {L : Type} [DecidableEq L] (rank : L → Nat) (B : Nat) (hB : ∀ l, rank l < B)
+    (pref : L → Bool) (s0 s : Sys L) (hinit : Init rank s0) (hreach : Reach pref s0 s)
+    (hunf : ∃ i, i < s.n ∧ (s.thr i).prog ≠ []) : CanStep pref s :=
+  progress hB (inv_reach (inv_init hinit) hreach) hunf
+
+/-- **Mutual exclusion.**  In every reachable state a lock held exclusively by one thread is held by no other
+    thread in any mode.  With `l` = the store lock this is `exclusive_excludes`: a section that holds the
+    exclusive store lock (create/destroy database, sync, checkpoint, the backup's stages 2 and 5) overlaps
+    no section of another call, because every call section holds the store lock (shape of the call automata). -/
+theorem exclusive_excludes {L : Type} [DecidableEq L] (rank : L → Nat) (pref : L → Bool) (s0 s : Sys L)
+    (hinit : Init rank s0) (hreach : Reach pref s0 s) (i j : Nat) (l : L) (hi : i < s.n) (hj : j < s.n)
+    (hij : i ≠ j) (hheld : (l, true) ∈ (s.thr i).held) : ∀ p ∈ (s.thr j).held, p.1 ≠ l :=
+  excl_reach (excl_init fun k hk => (hinit k hk).1) hreach i j l hi hj hij hheld
+
+/-- which locks prefer writers: `iwkv->rwl` and `db->rwl` are created with
+    `PTHREAD_RWLOCK_PREFER_WRITER_NONRECURSIVE_NP`; allocator and file locks have default attributes -/
+def prefLk : Lk → Bool
+  | .store => true
+  | .db _ => true
+  | _ => false
+
+/-- the system of `n` client threads (and background threads) where thread `i` makes the calls `sess i`,
+    each with a lock-event sequence of its call automaton -/
+def initSys (n : Nat) (sess : Nat → List (Kind × List Ev)) : Sys Lk :=
+  { n := n, thr := fun i => { prog := sessionActs (sess i), held := [], sleeping := false, units := 0 } }
+
+theorem countOnly_wkActs (k : Kind) : CountOnly (wkActs k) := by
+  intro a ha
+  cases k <;> simp [wkActs] at ha <;> (try rcases ha with h | h) <;> simp_all
+
+theorem accepts_ordered {k : Kind} {tr : List Ev} (h : accepts k tr = true) : runHeld [] tr = some [] := by
+  simp only [accepts, Bool.and_eq_true] at h
+  have := h.1.1.1
+  simpa [ordered] using this
+
+/-- programs built from accepted calls respect the declared order
+    worker mutex → store → database → allocator → file → log → spin locks -/
+theorem session_ordered (calls : List (Kind × List Ev)) (h : ∀ c ∈ calls, accepts c.1 c.2 = true) :
+    OrderedFrom Lk.rank [] (sessionActs calls) := by
+  induction calls with
+  | nil => simp [sessionActs, OrderedFrom]
+  | cons c cs ih =>
+    have hc := h c List.mem_cons_self
+    have hcs := ih (fun d hd => h d (List.mem_cons_of_mem _ hd))
+    have : sessionActs (c :: cs) = toActs c.1 c.2 ++ sessionActs cs := by simp [sessionActs]
+    rw [this]
+    exact ordered_toActs _ (countOnly_wkActs c.1) _ _ _ _ (accepts_ordered hc) hcs
+
+/-- **The store's locking protocol cannot deadlock.**  Take any number of threads; let every call of every
+    thread perform a lock-event sequence accepted by the call automaton of its kind (`accepts` — what the
+    recordings of the implementation are checked against), and let no thread make an exclusive call while one
+    of its own cursors is open (`UnitsOk`).  Then every reachable state with an unfinished thread has a step:
+    no interleaving ends in a deadlock, and the exclusive hand-shake on the worker count cannot block forever. -/
+theorem accepted_calls_no_deadlock (n : Nat) (sess : Nat → List (Kind × List Ev))
+    (hacc : ∀ i, i < n → ∀ c ∈ sess i, accepts c.1 c.2 = true)
+    (hunits : ∀ i, i < n → UnitsOk 0 (sessionActs (sess i)))
+    (s : Sys Lk) (hreach : Reach prefLk (initSys n sess) s)
+    (hunf : ∃ i, i < s.n ∧ (s.thr i).prog ≠ []) : CanStep prefLk s := by
+  refine order_no_deadlock Lk.rank 8 ?_ prefLk (initSys n sess) s ?_ hreach hunf
+  · intro l; cases l <;> simp [Lk.rank]
+  · intro i hi
+    exact ⟨rfl, rfl, rfl, session_ordered _ (hacc i hi), hunits i hi⟩
+
+/-- The hypothesis on cursors is needed: a thread that opens a cursor and then syncs (WAL) waits for its own
+    unit of the worker count — the model exhibits the documented self-deadlock. -/
+theorem self_deadlock_witness :
+    let prog : List (Act Lk) := [.acq .wk true, .inc, .rel .wk, .acq .wk true, .wait .wk, .acq .store true, .rel .wk, .rel .store,
+                                 .acq .wk true, .dec, .rel .wk]
+    OrderedFrom Lk.rank [] prog ∧ ¬ UnitsOk 0 prog := by
+  refine ⟨?_, ?_⟩
+  · simp [OrderedFrom, dropLock, Lk.rank]
+  · simp [UnitsOk]
+
+/-- non-vacuity: the recorded shape of a put, of a cursor open and of an exclusive sync are accepted,
+    and a put that would take the allocator while holding the file lock is not -/
+example : accepts (.writer 1 false)
+    [.acq .store false, .acq (.db 1) true, .acq .file false, .rel .file, .acq .alloc true, .acq .file true, .acq .log true,
+     .rel .log, .rel .file, .rel .alloc, .acq (.spin 1) true, .rel (.spin 1), .rel (.db 1), .rel .store, .acq .log true, .rel .log] = true := by
+  decide
+example : accepts (.copen 2) [.acq .wk true, .rel .wk, .acq .store false, .acq (.db 2) false, .acq (.spin 2) true, .rel (.spin 2),
+     .rel (.db 2), .rel .store] = true := by decide
+example : accepts .excl [.acq .wk true, .wait .wk, .acq .store true, .rel .wk, .acq .log true, .rel .log, .rel .store] = true := by decide
+example : accepts (.writer 1 false)
+    [.acq .store false, .acq (.db 1) true, .acq .file false, .acq .alloc true, .rel .alloc, .rel .file, .rel (.db 1), .rel .store] = false := by
+  decide
+
 end IwModel.C07
